@@ -96,6 +96,7 @@ def new_root():
     (a special relation between values - a zero component, equal lengths - is put into the world concretely, see World)"""
     r = TenSym({})
     r.generic_eq = True
+    r.moderate = True
     return r
 
 
